@@ -317,4 +317,40 @@ def build_dispatch(repo, src, trace):
     f = f.replace(sig_old, ') -> (r: Mmap)\n/*@spec*/' + DISPATCH_SPEC.rstrip('\n') + '\n/*@endspec*/{', 1)
     f = f.replace('/*@inv*/', LOOP_INV + '\n')
     arms = re.findall(r'^            RegOp::(\w+)\(([^)]*)\) => \{$', f, re.M)
-    return {'regop': regop, 'sem': sem, 'head': head, 'reg': reg_txt, 'trait': trait, 'fn': f, 'arms': arms, 'names': names, 'tag': tag, 'enums': enums}
+    # ---- stack frame sizing for spills: AssemblerData::{prepare_stack, stack_pos}
+    ad = rsx.get_item(src, r'^struct AssemblerData<T>', 0, 'struct AssemblerData')
+    if not re.search(r'^    mem_offset: usize,', ad, re.M):
+        raise ExtractError('struct AssemblerData: field mem_offset changed')
+    m = None
+    for m_ in re.finditer(r'^impl<T> AssemblerData<T> \{', src, re.M):
+        ob = m_.end() - 1
+        cb = rsx.match_brace(src, ob)
+        try:
+            i1, j1, k1 = rsx.find_fn(src, 'prepare_stack', ob, cb)
+            i2, j2, k2 = rsx.find_fn(src, 'stack_pos', ob, cb)
+            m = (src[rsx.line_start(src, i1):k1], src[rsx.line_start(src, i2):k2])
+            break
+        except ExtractError:
+            continue
+    if m is None:
+        raise ExtractError('AssemblerData::{prepare_stack, stack_pos} not found')
+    f_prep, f_pos = m
+    f_pos = f_pos.replace('assert!(', 'assert(')
+    trace.items.append((JIT_RS, 'AssemblerData::prepare_stack, AssemblerData::stack_pos'))
+    SZ = 'vstd::layout::size_of::<T>()'
+    spill = '(if slot_count >= REGISTER_LIMIT { slot_count - REGISTER_LIMIT } else { 0 })'
+    f_prep = f_prep.replace('stack_size: usize) {', 'stack_size: usize)\n/*@spec*/        requires %s * %s + stack_size + 15 <= usize::MAX\n        // the frame is 16-byte aligned and holds every spill slot plus the fixed area\n        ensures final(self).mem_offset %% 16 == 0, final(self).mem_offset >= %s * %s + stack_size, final(self).mem_offset < %s * %s + stack_size + 16\n/*@endspec*/    {' % (spill, SZ, spill, SZ, spill, SZ), 1)
+    f_pos = f_pos.replace('slot: u32) -> u32 {', 'slot: u32) -> (r: u32)\n/*@spec*/        requires slot >= REGISTER_LIMIT, %s <= u32::MAX, (slot - REGISTER_LIMIT) * %s <= u32::MAX   // the assertion of the function and machine arithmetic\n        ensures r == (slot - REGISTER_LIMIT) * %s\n/*@endspec*/    {' % (SZ, SZ, SZ), 1)
+    if '/*@spec*/' not in f_prep or '/*@spec*/' not in f_pos:
+        raise ExtractError('AssemblerData::{prepare_stack, stack_pos}: signature changed')
+    frame = ('pub struct AssemblerData<T> { pub mem_offset: usize, pub _p: core::marker::PhantomData<T> }\n'
+             'pub assume_specification [usize::next_multiple_of] (a: usize, b: usize) -> (r: usize)\n    requires b > 0, a + b - 1 <= usize::MAX\n    ensures r % b == 0, r >= a, r < a + b;\n'
+             'impl<T> AssemblerData<T> {\n    /// emits `sub rsp, mem_offset` (machine code; no effect on the Rust state)\n    #[verifier::external_body]\n    fn push_stack(&mut self) ensures final(self).mem_offset == old(self).mem_offset { }\n\n'
+             + f_prep + '\n\n' + f_pos + '\n}\n'
+             '/// every spill slot of a tape with `slot_count` slots lies inside the frame prepare_stack sized for it (offset stack_pos(slot) above the fixed area)\n'
+             'pub proof fn lemma_frame(slot_count: int, slot: int, size: int, stack_size: int, mem_offset: int)\n'
+             '    requires REGISTER_LIMIT <= slot < slot_count, size >= 0, mem_offset >= (slot_count - REGISTER_LIMIT) * size + stack_size,\n'
+             '    ensures (slot - REGISTER_LIMIT) * size + size + stack_size <= mem_offset\n{\n'
+             '    assert((slot - REGISTER_LIMIT) * size + size == (slot - REGISTER_LIMIT + 1) * size) by (nonlinear_arith);\n'
+             '    assert((slot - REGISTER_LIMIT + 1) * size <= (slot_count - REGISTER_LIMIT) * size) by (nonlinear_arith) requires slot + 1 <= slot_count, size >= 0;\n}\n')
+    return {'frame': frame, 'regop': regop, 'sem': sem, 'head': head, 'reg': reg_txt, 'trait': trait, 'fn': f, 'arms': arms, 'names': names, 'tag': tag, 'enums': enums}
